@@ -131,6 +131,8 @@ class SubCtx:
         self._alias = alias
         self._known = {k["key"] for k in load_known() if k.get("property") == src_prop and k.get("status") == "known"}
         self.kept = 0
+        self.reached: T.Set[str] = set()          # allowed rules with at least one obligation or floor
+        self.last_rule: T.Optional[str] = None    # rule of the most recent obligation of the source check (allowed or not)
 
     def __getattr__(self, name: str) -> T.Any:
         return getattr(self._p, name)
@@ -139,14 +141,18 @@ class SubCtx:
         pass
 
     def ok(self, rule: str, what: str) -> None:
+        self.last_rule = rule
         if rule in self._allow:
             self.kept += 1
+            self.reached.add(rule)
             self._p.ok(self._alias, f"[{self._src}/{rule}] {what}")
 
     def bad(self, rule: str, key: str, message: str, loc: str = "", witness: T.Any = None,
             path: T.Optional[T.List[str]] = None, what: T.Optional[str] = None) -> None:
+        self.last_rule = rule
         if rule not in self._allow:
             return
+        self.reached.add(rule)
         if f"{self._src}/{rule} {key}" in self._known:
             return
         if self._only is not None and not self._only(key):
@@ -163,7 +169,9 @@ class SubCtx:
         return cond
 
     def floor(self, rule: str, what: str, count: int, minimum: int) -> None:
+        self.last_rule = rule
         if rule in self._allow:
+            self.reached.add(rule)
             self._p.floor(self._alias, f"[{self._src}/{rule}] {what}", count, minimum)
 
     @property
@@ -186,9 +194,11 @@ def run_prerequisite(ctx: Ctx, src_prop: str, allow: T.Iterable[str], alias: str
     try:
         mod.run(sub)
     except AnalysisError:
-        if sub.kept == 0:
+        # The source check gave up.  That is of no concern only when it happened in a rule that is not imported: every
+        # imported rule was reached and the obligation recorded last belongs to another rule.  Otherwise an imported rule
+        # may be undecided (or half decided) and this check cannot claim it.
+        if sub.kept == 0 or sub.last_rule in sub._allow or not sub._allow <= sub.reached:
             raise
-        # a later, unrelated rule of the source check gave up; the imported rules were already decided
     finally:
         _PREREQ_ACTIVE.pop()
     return sub.kept
